@@ -38,6 +38,7 @@ PID = "C16"
 COQ_TARGETS = ["props/C16.vo"]
 THEOREMS = ["Stab.props.C16." + t for t in (
     "C16_bfs_exact", "C16_kahn_result", "C16_kahn_topological", "C16_fuel_suffices", "C16_visibility",
+    "C16_noninterference",
     "C16_precedence_own", "C16_precedence", "C16_path_ordered", "C16_lists",
     "C16_reducers_sum", "C16_reducers_max_min", "C16_reducers_sum_all", "C16_reducers_extremum_all",
     "C16_reducers_collect", "C16_reducers_extend", "C16_reducers_collect_all", "C16_reducers_merge",
